@@ -155,57 +155,7 @@ Proof.
   split; [reflexivity|]. unfold inside_safe_area. intros (_ & _ & H & _). vm_compute in H. apply H. reflexivity.
 Qed.
 
-(* ---- subtitle numbers: `is not` (object identity) against `!=` ------------------------------------------------ *)
-Definition sn_pred : state -> tti -> list Z -> bool -> bool :=
-  fun s t _ live => live && ((t_cs t =? 0) || (t_cs t =? 1)) && (256 <? t_sn t) &&
-                    match st_last_sn s with Some l => l =? t_sn t | None => false end.
-
-Lemma process_same f s t :
-  (text_block t && let '(tf, live) := block_view f s t in sn_pred s t tf live) = false ->
-  process_tti true f s t = process_tti false f s t.
-Proof.
-  unfold process_tti, block_view, text_block, sn_pred.
-  destruct ((239 <? t_ebn t) && (t_ebn t <? 255)) eqn:E1; [reflexivity|]. cbn [negb andb].
-  destruct (t_ebn t =? 255) eqn:E2; [|reflexivity]. cbn [negb andb].
-  destruct (q_neg (offset_q (f_fps f) (t_tci t) - f_start f)) eqn:E3; [reflexivity|].
-  destruct (q_lt (offset_q (f_fps f) (t_tco t) - f_start f) (offset_q (f_fps f) (t_tci t) - f_start f)) eqn:E4; [reflexivity|].
-  cbn [negb andb]. intros H.
-  assert (Heq : sn_is_not true (t_sn t) (st_last_sn s) && ((t_cs t =? 0) || (t_cs t =? 1)) =
-                sn_is_not false (t_sn t) (st_last_sn s) && ((t_cs t =? 0) || (t_cs t =? 1))).
-  { unfold sn_is_not. destruct (st_last_sn s) as [l|]; [|reflexivity].
-    destruct ((t_cs t =? 0) || (t_cs t =? 1)); [|rewrite !andb_false_r; reflexivity].
-    cbn [andb] in H. rewrite !andb_true_r.
-    destruct (256 <? t_sn t); [|reflexivity]. cbn [andb orb] in *.
-    rewrite Z.eqb_sym in H. rewrite H. reflexivity. }
-  rewrite Heq. reflexivity.
-Qed.
-
-Lemma read_same : forall fuel f s bs, scan fuel sn_pred f s bs = false ->
-  read_blocks fuel true f s bs = read_blocks fuel false f s bs.
-Proof.
-  induction fuel as [|k IH]; intros f s bs H; [reflexivity|].
-  cbn [scan read_blocks] in *. destruct bs as [|b0 bs0]; [reflexivity|].
-  set (bs := b0 :: bs0) in *.
-  destruct (negb (Nat.eqb (length (firstn 128 bs)) 128)); [reflexivity|].
-  apply orb_false_iff in H as [Hp Hn].
-  rewrite <- (process_same f s _ Hp).
-  destruct (process_tti true f s (unpack_tti (firstn 128 bs))) as [s'|e]; [|reflexivity].
-  destruct (f_tti_count f =? 0); [reflexivity|]. apply IH, Hn.
-Qed.
-
-(* outside the trigger the reader behaves as if subtitle numbers were compared by value *)
-Lemma sn_value_partial file cfg : trigger_sn_identity file cfg = false -> reader_gen true file cfg = reader_gen false file cfg.
-Proof.
-  unfold trigger_sn_identity, scan_file, reader_gen, gsi_of.
-  destruct (negb (Nat.eqb (length (firstn 1024 file)) 1024)); [reflexivity|].
-  destruct (init (unpack_gsi (firstn 1024 file)) cfg) as [f|e]; [|reflexivity].
-  intros H. change (fun (s : state) (t : tti) (_ : list Z) (live : bool) =>
-                      live && ((t_cs t =? 0) || (t_cs t =? 1)) && (256 <? t_sn t) &&
-                      match st_last_sn s with Some l => l =? t_sn t | None => false end) with sn_pred in H.
-  rewrite (read_same _ _ _ _ H). reflexivity.
-Qed.
-
-(* witness: two terminal blocks with the same subtitle number 300 (a new paragraph each) against 5 (one paragraph) *)
+(* ---- witness files (used by Findings/C09.v and the examples of Properties/C09.v) ----------------------------------- *)
 Definition put (off : nat) (v : list Z) (l : list Z) : list Z := firstn off l ++ v ++ skipn (off + length v) l.
 Definition witness_gsi : list Z :=
   put 3 [83; 84; 76; 50; 53; 46; 48; 49] (put 11 [49; 48; 48; 48; 57] (put 238 [48; 48; 48; 48; 50] (put 253 [50; 51] (repeat 32 1024%nat)))).
@@ -215,14 +165,13 @@ Definition cfg0 : config := mkConfig StNone MrNone false false None.
 Definition paragraphs_of (o : outcome) : Z :=
   match o with Ok d => Z.of_nat (length (concat (d_divs d))) | Err _ => -1 end.
 
-Lemma sn_identity_refuted : exists sn file,
-  reader_model file cfg0 <> reader_gen false file cfg0 /\
-  (* the same file with a small subtitle number is read differently by the faithful model *)
-  paragraphs_of (reader_model file cfg0) = 2 /\
-  paragraphs_of (reader_model (witness_gsi ++ witness_tti (sn - 295) 1 2 20 0 0 [65] ++ witness_tti (sn - 295) 3 4 20 0 0 [66]) cfg0) = 1.
+(* subtitle numbers are compared by value: a block opens a paragraph iff its number differs from the last one's *)
+Lemma sn_value sn last : sn_differs sn last = true <-> last <> Some sn.
 Proof.
-  exists 300, (witness_gsi ++ witness_tti 300 1 2 20 0 0 [65] ++ witness_tti 300 3 4 20 0 0 [66]).
-  split; [|split]; vm_compute; [discriminate | reflexivity | reflexivity].
+  unfold sn_differs. destruct last as [l|]; [|split; [discriminate | reflexivity]].
+  destruct (sn =? l) eqn:E; cbn [negb]; split; intros H; try reflexivity; try discriminate.
+  - apply Z.eqb_eq in E. subst. contradiction.
+  - intros Heq. injection Heq as ->. rewrite Z.eqb_refl in E. discriminate.
 Qed.
 
 (* ---- grouping: extension blocks are concatenated, user-data/reserved blocks are skipped --------------------------- *)
@@ -230,47 +179,47 @@ Definition is_ext (t : tti) : bool := text_block t && negb (t_ebn t =? 255).
 Definition ext_or_skip (t : tti) : Prop := is_ext t = true \/ text_block t = false.
 Definition acc_tf (s : state) : list Z := if st_in_ext s then st_tf s else [].
 
-Fixpoint fold_blocks (identity : bool) (f : datafile) (s : state) (ts : list tti) : state + error :=
+Fixpoint fold_blocks (f : datafile) (s : state) (ts : list tti) : state + error :=
   match ts with
   | [] => inl s
-  | t :: r => match process_tti identity f s t with inl s' => fold_blocks identity f s' r | inr e => inr e end
+  | t :: r => match process_tti f s t with inl s' => fold_blocks f s' r | inr e => inr e end
   end.
 
-Lemma process_skip identity f s t : text_block t = false -> process_tti identity f s t = inl s.
+Lemma process_skip f s t : text_block t = false -> process_tti f s t = inl s.
 Proof.
   unfold text_block, process_tti. intros H. destruct ((239 <? t_ebn t) && (t_ebn t <? 255)); [reflexivity | discriminate].
 Qed.
-Lemma process_ext identity f s t : is_ext t = true ->
-  process_tti identity f s t = inl (mkState true (acc_tf s ++ strip_8f (t_tf t)) (st_last_sn s) (st_divs s) (st_cur s) (st_regions s)).
+Lemma process_ext f s t : is_ext t = true ->
+  process_tti f s t = inl (mkState true (acc_tf s ++ strip_8f (t_tf t)) (st_last_sn s) (st_divs s) (st_cur s) (st_regions s)).
 Proof.
   unfold is_ext, text_block, process_tti, acc_tf. intros H. apply andb_true_iff in H as [H1 H2].
   destruct ((239 <? t_ebn t) && (t_ebn t <? 255)); [discriminate|]. rewrite H2. reflexivity.
 Qed.
 
-Lemma ext_chain identity f : forall ts s, Forall ext_or_skip ts ->
-  exists s', fold_blocks identity f s ts = inl s' /\
+Lemma ext_chain f : forall ts s, Forall ext_or_skip ts ->
+  exists s', fold_blocks f s ts = inl s' /\
              acc_tf s' = acc_tf s ++ concat (map (fun x => strip_8f (t_tf x)) (filter text_block ts)) /\
              st_last_sn s' = st_last_sn s /\ st_divs s' = st_divs s /\ st_cur s' = st_cur s /\ st_regions s' = st_regions s.
 Proof.
   induction ts as [|t r IH]; intros s H.
   - exists s. cbn. rewrite app_nil_r. repeat split.
   - inversion H as [|? ? Ht Hr]; subst. cbn [fold_blocks filter]. destruct Ht as [Ht|Ht].
-    + rewrite (process_ext identity f s t Ht).
+    + rewrite (process_ext f s t Ht).
       assert (Htb : text_block t = true) by (unfold is_ext in Ht; apply andb_true_iff in Ht; tauto). rewrite Htb.
       destruct (IH (mkState true (acc_tf s ++ strip_8f (t_tf t)) (st_last_sn s) (st_divs s) (st_cur s) (st_regions s)) Hr)
         as (s' & Hf & Ha & H1 & H2 & H3 & H4).
       exists s'. split; [exact Hf|]. cbn [map concat]. unfold acc_tf in *. cbn [st_in_ext st_tf] in Ha.
       rewrite Ha, <- app_assoc. repeat split; assumption.
-    + rewrite (process_skip identity f s t Ht), Ht. apply IH, Hr.
+    + rewrite (process_skip f s t Ht), Ht. apply IH, Hr.
 Qed.
 
 (* the text field that the terminal block of a subtitle is decoded from: the stripped text fields of all its
    text-carrying blocks, in order *)
-Lemma grouping_tf identity f ts s t : st_in_ext s = false -> Forall ext_or_skip ts -> text_block t = true ->
-  exists s', fold_blocks identity f s ts = inl s' /\
+Lemma grouping_tf f ts s t : st_in_ext s = false -> Forall ext_or_skip ts -> text_block t = true ->
+  exists s', fold_blocks f s ts = inl s' /\
              fst (block_view f s' t) = concat (map (fun x => strip_8f (t_tf x)) (filter text_block (ts ++ [t]))).
 Proof.
-  intros Hs Hts Ht. destruct (ext_chain identity f ts s Hts) as (s' & Hf & Ha & _).
+  intros Hs Hts Ht. destruct (ext_chain f ts s Hts) as (s' & Hf & Ha & _).
   exists s'. split; [exact Hf|]. unfold block_view. cbn [fst]. fold (acc_tf s'). rewrite Ha.
   unfold acc_tf at 1. rewrite Hs. cbn [app]. rewrite filter_app, map_app, concat_app. cbn [filter]. rewrite Ht.
   cbn [map concat]. rewrite app_nil_r. reflexivity.
@@ -288,15 +237,14 @@ Definition text_align_of (jc : Z) : Z := if jc =? 1 then 0 else if jc =? 3 then 
 
 (* it becomes a paragraph visible exactly from TCI to TCO (shifted by the programme start), holding the pieces of its
    accumulated text field, aligned by JC, in the region of its VP *)
-Lemma new_subtitle f s t rows r :
-  text_block t = true -> t_ebn t = 255 -> t_cs t = 0 -> sn_is_not true (t_sn t) (st_last_sn s) = true ->
-  f_max_rows f = Some rows ->
+Lemma new_subtitle f s t r :
+  text_block t = true -> t_ebn t = 255 -> t_cs t = 0 -> st_last_sn s <> Some (t_sn t) ->
   let tf := acc_tf s ++ strip_8f (t_tf t) in
   let b := (offset_q (f_fps f) (t_tci t) - f_start f)%Q in
   let e := (offset_q (f_fps f) (t_tco t) - f_start f)%Q in
   q_neg b = false -> q_lt e b = false ->
-  region_for rows (t_vp t) tf (has_double_height_char tf) = Some r ->
-  exists s', process_tti true f s t = inl s' /\
+  region_for (f_max_rows f) (t_vp t) tf (has_double_height_char tf) = Some r ->
+  exists s', process_tti f s t = inl s' /\
     st_cur s' = Some (t_sgn t,
                       mkPara (fst (get_region (st_regions s) r)) (text_align_of (t_jc t))
                              (if f_teletext f && negb (has_double_height_char tf) then default_single_height_font_size_pct
@@ -305,20 +253,20 @@ Lemma new_subtitle f s t rows r :
                              (map PLeaf (tf_model (decoder_of_cct (f_cct f)) (f_teletext f) tf))) /\
     st_regions s' = snd (get_region (st_regions s) r).
 Proof.
-  intros Htb Hebn Hcs Hsn Hrows tf b e Hb He Hr.
+  intros Htb Hebn Hcs Hsn tf b e Hb He Hr. apply sn_value in Hsn.
   unfold process_tti. unfold text_block in Htb.
   destruct ((239 <? t_ebn t) && (t_ebn t <? 255)); [discriminate|].
   rewrite Hebn. cbn [Z.eqb Pos.eqb negb].
   fold (acc_tf s). fold tf. fold b. rewrite Hb. fold e. rewrite He.
-  rewrite Hsn, Hcs. cbn [Z.eqb orb andb]. rewrite Hrows, Hr.
+  rewrite Hsn, Hcs. cbn [Z.eqb orb andb]. rewrite Hr.
   destruct (get_region (st_regions s) r) as [ri rs] eqn:Hg. cbn [st_cur fst snd].
   eexists. split; [reflexivity|]. cbn [st_cur st_regions]. split; reflexivity.
 Qed.
 
 (* a subtitle that starts before the programme start is dropped: nothing but the extension bookkeeping changes *)
-Lemma early_subtitle_dropped identity f s t :
+Lemma early_subtitle_dropped f s t :
   text_block t = true -> t_ebn t = 255 -> q_neg (offset_q (f_fps f) (t_tci t) - f_start f) = true ->
-  exists s', process_tti identity f s t = inl s' /\ st_divs s' = st_divs s /\ st_cur s' = st_cur s /\
+  exists s', process_tti f s t = inl s' /\ st_divs s' = st_divs s /\ st_cur s' = st_cur s /\
              st_regions s' = st_regions s /\ st_last_sn s' = st_last_sn s /\ st_in_ext s' = false.
 Proof.
   intros Htb Hebn Hb. unfold process_tti. unfold text_block in Htb.
@@ -334,7 +282,7 @@ Lemma cumulative_member f s t sgn p :
   let b := (offset_q (f_fps f) (t_tci t) - f_start f)%Q in
   let e := (offset_q (f_fps f) (t_tco t) - f_start f)%Q in
   q_neg b = false -> q_lt e b = false ->
-  exists s', process_tti true f s t = inl s' /\
+  exists s', process_tti f s t = inl s' /\
     st_cur s' = Some (sgn, mkPara (p_region p) (p_align p) (p_font_size p) (p_line_height p) (p_time p)
                                   (p_items p ++ [PSub b e (tf_model (decoder_of_cct (f_cct f)) (f_teletext f) tf ++
                                                            (if t_cs t =? 2 then [LBr] else []))])) /\
@@ -349,11 +297,11 @@ Proof.
     eexists; (split; [reflexivity|]); cbn [st_cur st_divs st_regions]; rewrite ?app_nil_r; repeat split.
 Qed.
 
-Lemma grouping_partial identity f ts s t : st_in_ext s = false -> Forall ext_or_skip ts -> text_block t = true ->
+Lemma grouping_partial f ts s t : st_in_ext s = false -> Forall ext_or_skip ts -> text_block t = true ->
   Forall (fun x => trigger_strip (t_tf x) = false) (filter text_block (ts ++ [t])) ->
-  exists s', fold_blocks identity f s ts = inl s' /\
+  exists s', fold_blocks f s ts = inl s' /\
              fst (block_view f s' t) = concat (map (fun x => text_of_field (t_tf x)) (filter text_block (ts ++ [t]))).
 Proof.
-  intros Hs Hts Ht Hw. destruct (grouping_tf identity f ts s t Hs Hts Ht) as (s' & Hf & Hv).
+  intros Hs Hts Ht Hw. destruct (grouping_tf f ts s t Hs Hts Ht) as (s' & Hf & Hv).
   exists s'. split; [exact Hf|]. rewrite Hv. exact (grouping_tf_spec _ Hw).
 Qed.
